@@ -129,7 +129,49 @@ func derefNamed(t types.Type) (string, bool) {
 	return "", false
 }
 
+func fnv64a(vals []string) uint64 {
+	h := uint64(14695981039346656037)
+	for _, s := range vals {
+		for i := 0; i < len(s); i++ {
+			h ^= uint64(s[i])
+			h *= 1099511628211
+		}
+		h ^= 255
+		h *= 1099511628211
+	}
+	return h
+}
+
 func init() {
+	// the real FNV-1a hash of the label values, computed natively per assignment
+	// of the index variables (label values come from solver-indexed pools)
+	intrinsics["github.com/flant/shell-operator/pkg/metric.HashLabelValues"] = func(fr *frame, a []value) (value, bool) {
+		vals := a[0].([]value)
+		r, _, ok := fr.m.lift(vals, func(c []value) (value, bool) {
+			ss := make([]string, len(c))
+			for i := range c {
+				ss[i] = c[i].(string)
+			}
+			return fnv64a(ss), true
+		})
+		if ok {
+			return r, true
+		}
+		allConc := true
+		for _, v := range vals {
+			if _, isStr := v.(string); !isStr {
+				allConc = false
+			}
+		}
+		if allConc {
+			ss := make([]string, len(vals))
+			for i := range vals {
+				ss[i] = vals[i].(string)
+			}
+			return fnv64a(ss), true
+		}
+		panic(engineErr("HashLabelValues on unbounded symbolic strings is not modelled"))
+	}
 	intrinsics["encoding/json.Marshal"] = func(fr *frame, a []value) (value, bool) {
 		return tuple{&symBytes{fr.m.jsonText(a[0], 0)}, iface{}}, true
 	}
